@@ -261,7 +261,7 @@ fn workload(m: &mut Mon, bits: usize) {
         }
         let dl = r.range(1, l);
         let maxtop = if dl == l && bits % 64 != 0 { bits % 64 } else { 64 };
-        let topbits = r.range(1, maxtop);
+        let topbits = if maxtop == 64 && r.chance(1, 4) { 64 } else { r.range(1, maxtop) };
         let d = divgen::divisor(&mut r, dl, topbits);
         let bd_ = big::big(&d);
         let recipe = r.below(8);
